@@ -46,6 +46,17 @@ def o_C14(case, p):
     return None
 
 
+def known_C14(case, f, known):
+    """a failure of the C14 oracle that belongs to the recorded class -> the KNOWN-FINDING text; anything else -> None"""
+    ks = [k for k in known if k.get("check") == "oracle"]
+    if not ks or f.get("check") != "oracle" or not gens.known_C14_shape(case):
+        return None
+    d = f.get("detail", "")
+    if d.startswith("well-formed siblings lost or changed") or (d.startswith("syntax Error at") and "outside the malformed member" in d):
+        return f"{ks[0].get('site', '')} {ks[0].get('class', '')} (witness: {ks[0].get('witness', '')})"
+    return None
+
+
 def o_C18(case, p):
     if case.get("doc") is not None:
         return oracles.check_mirror(case["doc"], p["fr"]["ast"], check_docs=True)
@@ -112,8 +123,10 @@ PARSE_PROPS = {
              "well-formed items with 1-5 members; at every member position a garbage token string (1-9 tokens over the full vocabulary "
              "without ; { } and, in enums, without ,) followed by the terminator; the same document without it as baseline; a case counts "
              "when the garbage is not itself accepted as a member",
-             runs=[("parse", "P", ["corr_parse_shape"])], py_oracle=o_C14,
-             trusted_base=TB_PARSE, assumptions=ASSUME_PARSE, distribution=dist_parse),
+             runs=[("parse", "P", ["corr_parse_shape"])], py_oracle=o_C14, known_recogniser=known_C14,
+             trusted_base=TB_PARSE, assumptions=ASSUME_PARSE + ["KNOWN FINDING: in an enum body a malformed member that opens an annotation "
+             "parenthesis without closing it absorbs its own terminating comma and the following elements (theorem C14_known); only that "
+             "exact class is tolerated"], distribution=dist_parse),
     "C18": P(["Model/Javadoc.v", "Proofs/Javadoc.v", "Proofs/JavadocGap.v", "Properties/C18.v"], [], gens.gen_C18,
              "generated documents with doc comments (paragraphs, lines, @tags; star / plain / one-line decoration; LF and CRLF; ASCII, accented, "
              "CJK, emoji words) on items, members, enum elements and arguments, rendered with ASCII whitespace and ordinary comments "
